@@ -73,10 +73,34 @@ def build(name, depth, log, force_unchecked=False):
 
 
 def tree(case, log):
+    """children are added in document order, except in two variants (decided per case, so that a rebuilt tree is the same tree):
+    'forward': of two same-named children the later one is added first with forward=1 (insertion order != document order in a way the
+               container cannot reconstruct by itself); 'stray': checking is switched off, a child outside the content model is added, checking
+               is switched on again (the insertion list holds a child the container does not)"""
     root = build(case['root'], 0, log, case.get('unchecked_root', False))
-    for n in case['word']:
-        c = build(n, 1, log)
-        root.add_child(c)
+    word = list(case['word'])
+    variant = case.get('variant')
+    kids = [build(n, 1, log) for n in word]
+    order = list(range(len(word)))
+    fwd = {}
+    if variant == 'forward':
+        dup = [(i, j) for i in range(len(word)) for j in range(i + 1, len(word)) if word[i] == word[j]]
+        if dup:
+            i, j = dup[0]
+            order[i], order[j] = j, i
+            fwd[j] = 1
+    for pos in order:
+        if pos in fwd:
+            try:
+                root.add_child(kids[pos], forward=fwd[pos])
+            except Exception:
+                root.add_child(kids[pos])          # forward= is refused here (a recorded finding of C10 / C19): plain add
+        else:
+            root.add_child(kids[pos])
+    if variant == 'stray' and root.xsd_check:
+        root.xsd_check = False
+        root.add_child(build(case['stray'], 1, log))
+        root.xsd_check = True
     return root
 
 
@@ -90,7 +114,7 @@ def obs(x):
 
 
 def checks(e):
-    return [e.xsd_check] + [x for c in e.get_children(ordered=False) for x in checks(c)]
+    return [e.xsd_check] + [x for c in e.get_children() for x in checks(c)]          # the nodes that are serialised (a child held only by the insertion list is not)
 
 
 out = []
@@ -105,6 +129,11 @@ for case in job['cases']:
         continue
     rec['log'] = log
     s0 = ts(e)
+    if case.get('variant') == 'forward' and s0.startswith('EXC:'):
+        # forward= left the original in a state that does not serialise (recorded findings of C06 / C10 / C19, RC2): nothing to be faithful to
+        rec['build'] = 'forward variant: the original does not serialise (%s)' % s0[:60]
+        out.append(rec)
+        continue
     try:
         c = copy.deepcopy(e)
     except Exception as ex:
@@ -137,7 +166,11 @@ for case in job['cases']:
         for mi in range(6):
             a = tree_copy = None
             e2 = e
-            c2 = copy.deepcopy(e2)
+            try:
+                c2 = copy.deepcopy(e2)
+            except Exception as ex:
+                rec['copy_exc'] = type(ex).__name__ + ' (copy of a tree rebuilt for the independence rounds)'
+                break
             tgt, other = (c2, e2) if side == 'copy' else (e2, c2)
             before = obs(other)
             ms = mutations(tgt)
@@ -170,6 +203,9 @@ for case in job['cases']:
                 s0 = ts(e)
             if before != after:
                 indep.append([side, kind, str(k)])
+    if 'copy_exc' in rec:
+        out.append(rec)
+        continue
     rec['independent'] = not indep
     rec['aliasing'] = indep
     out.append(rec)
